@@ -81,6 +81,12 @@ def parse_segments(ctx, segs):
             for x in bs[1:]:
                 n = z3.Concat(n, x)
             n = z3.ZeroExt(64 - 8 * w, n) if w < 8 else n
+            # the structures are the deterministic encoding (what the serialiser emits): a head
+            # uses the shortest form that holds its argument
+            least = z3.BitVecVal([24, 1 << 8, 1 << 16, 1 << 32][k - 1], 64)
+            if ctx.check(z3.ULT(n, least)):
+                ctx.assume(z3.ULT(n, least))
+                raise Malformed("a hand-assembled head is not in the shortest form for its argument")
         n = z3.simplify(n)
         if major in (0, 1):
             val = z3.ZeroExt(64, n) if major == 0 else (z3.BitVecVal(-1, 128) - z3.ZeroExt(64, n))
@@ -167,7 +173,7 @@ def check_structure(ctx, got_bytes, expected, what):
     try:
         tree = tree_of_bytes(ctx, got_bytes)
     except Malformed as e:
-        return what + ": output is not well-formed CBOR (%s)" % e
+        return what + ": output is not a well-formed deterministic CBOR encoding (%s)" % e
     if tree is None:
         return what + ": bytes handed over are not a serialised structure"
     eq = refenc.value_eq(ctx, tree, expected, ctx.side.get("written", {}), std_keys=set())
